@@ -5247,3 +5247,24 @@ func c19MalformedTrailersResetStream(c *Ctx) {
 			"RFC 9114 §4.1.2: malformed requests or responses are stream errors of type H3_MESSAGE_ERROR; a handler that drains the body got a clean response although the trailers carried a pseudo-header")
 	}
 }
+
+// C06.10: an ACK is validated against both ends of what was sent in the space: ReceivedAck processes the ranges only
+// beyond `LargestAcked() > largestSent` (false edge, C06.3) AND `LowestAcked() < firstPN` (false edge), and firstPN is
+// the number the space's generator starts with (spaces need not start at 0: Chrome parrots start the Initial space at
+// 1, a connection recreated after Version Negotiation continues at the next number, ResetForRetry starts a new space).
+func c06AckLowerBound(c *Ctx) {
+	const R = "C06.10"
+	f := c.fn(ah, "sentPacketHandler", "ReceivedAck")
+	first := c.fld(ah, "packetNumberSpace", "firstPN")
+	low := c.obj("internal/wire", "AckFrame", "LowestAcked")
+	proc := c.obj(ah, "sentPacketHandler", "detectAndRemoveAckedPackets")
+	c.Floor(R, "ReceivedAck processes the acknowledged ranges", countInstr(f, CallsTo(proc)), 1)
+	c.cut(R, "lower:ReceivedAck rejects an ACK below the first packet number of the space", &Cut{Fn: f, Target: CallsTo(proc), NoInline: true,
+		Edge: EdgeRel(Rel{Op: token.LSS, X: CallTo(low, -1), Y: Load(first)}, true)},
+		"an ACK for a packet number that was never sent is a PROTOCOL_VIOLATION: with InitPacketNumber 1 (Chrome parrots) ACK{0-3} was accepted and acknowledged packets 1-3")
+	ctor := c.fn(ah, "", "newPacketNumberSpace")
+	ws := c.checkWriters(R, first, c.set([3]string{ah, "", "newPacketNumberSpace"}), 1)
+	for _, w := range ws[funcObj(ctor)] {
+		c.Check(ParamV("initialPN")(w.Val), R, "origin:firstPN is the number the generator starts with", c.P.InstrPos(w.Instr), "the same initialPN that seeds the packet number generator")
+	}
+}
